@@ -3,7 +3,7 @@ Space: all strings of <= n tokens over a 15-token alphabet as the value of `inte
 both settings of IntentErrorRecovery, both orders of switching the setting on one stored expression.
 Oracle: a reference recognizer for the intent grammar (harness-side) classifies every string as
 definitely illegal / core-legal name(args) / undetermined; see check_case for what each class must do."""
-import itertools, json, re, sys
+import itertools, json, os, re, sys
 sys.setrecursionlimit(100000)
 from common import Run, norm_ids, is_ok, is_err, is_panic, val, short
 import terms, mcx
@@ -21,6 +21,32 @@ HOSTS = {
 # a host with four arguments, used for the chained applications only
 HOST4 = (lambda v: f'<math><mrow{v}><mn arg="a">11.3</mn><mo>+</mo><mn arg="b">12.7</mn><mo>+</mo><mn arg="c">16.8</mn><mo>+</mo><mn arg="d">17.4</mn></mrow></math>',
          {"a": "11.3", "b": "12.7", "c": "16.8", "d": "17.4"})
+_MATHML = {"math", "mi", "mn", "mo", "mtext", "ms", "mspace", "mglyph", "mrow", "mfrac", "msqrt", "mroot", "mstyle", "merror", "mpadded", "mphantom", "mfenced", "menclose", "msub", "msup",
+           "msubsup", "munder", "mover", "munderover", "mmultiscripts", "mprescripts", "none", "mtable", "mtr", "mlabeledtr", "mtd", "maligngroup", "malignmark", "mstack", "mlongdiv",
+           "msgroup", "msrow", "mscarries", "mscarry", "msline", "maction", "semantics", "annotation", "annotation-xml", "unknown"}
+_HEADS = []
+
+
+def known_heads():
+    """concept names the English rule files have rules for (every 'tag:' that is not a MathML element): a well-formed intent with such a
+    head - whatever the number of arguments - is honoured like one with an unknown head"""
+    if not _HEADS:
+        import glob
+        tags = set()
+        for f in glob.glob(os.path.join(mcx.RULES, "Languages", "en", "*_Rules.yaml")) + glob.glob(os.path.join(mcx.RULES, "Languages", "en", "SharedRules", "*.yaml")):
+            for line in open(f, encoding="utf-8"):
+                m = re.match(r"\s*-?\s*tag:\s*(.*?)\s*(#.*)?$", line)
+                if m:
+                    tags |= {t for t in re.findall(r"[A-Za-z][\w-]*", m.group(1)) if t not in _MATHML}
+        _HEADS.extend(sorted(tags))
+    return _HEADS
+
+
+def known_head_strings():
+    refs = ["$a", "$b", "$c", "$d"]
+    return [f"{h}({','.join(refs[:n])})" for h in known_heads() for n in (1, 2, 3, 4)]
+
+
 PROPS_ON_ARGS = ["frob(7:p,$a)", "frob($a:p,$b)", "frob($a,8:p:q)", "frob(-3.5:p)", "frob(9:p)", "frob($a:p:q,$b:p)", "frob($a, 7:p )", "frob(2:p,3:q,$b)"]
 CHAINS = ["frob($a)($b)", "frob($a)($b)($c)", "frob($a)($b)($c)($d)", "frob($a,$b)($c)", "frob($a)($b,$c)", "frob($a)($b,$c)($d)", "frob($a,$b)($c,$d)", "frob($a)(7)($b)(8)",
           "frob($a)($b)(9)", "frob(7)(8)(9)", "frob($d)($c)($b)($a)", "frob($a,$b,$c)($d)", "frob($a)($b,$c,$d)", "frob($a)($b)($c)($d)(7)(8)"]
@@ -170,7 +196,7 @@ def classify(s, args):
                 okc = False
         if okc and depth == 0 and len(groups) >= 2:
             return "core"
-    if (len(toks) >= 4 and kinds[0] == "name" and toks[0][1] == NAME and kinds[1] == "(" and kinds[-1] == ")"
+    if (len(toks) >= 4 and kinds[0] == "name" and (toks[0][1] == NAME or toks[0][1] in known_heads()) and kinds[1] == "(" and kinds[-1] == ")"
             and len(set(refs)) == len(refs)):
         inner = [t for t in toks[2:-1]]
         # an argument (reference or number) may carry properties: strip them before looking at the list shape
@@ -202,6 +228,8 @@ def shape(s):
     if toks is None:
         return "unlexable"
     kinds = [t[0] for t in toks]
+    if toks and toks[0][0] == "name" and toks[0][1] != NAME and toks[0][1] in known_heads():
+        kinds[0] = toks[0][1]           # a head the rules know: one class per head, its rule decides what happens
     return " ".join(kinds) if len(kinds) <= 12 else "long:" + " ".join(kinds[:4])
 
 
@@ -270,7 +298,7 @@ def check_case(host, s, res, ref, cls, literals):
             add("legal-rejected", f"Error mode rejected a well-formed intent: {short(e0, 160)}")
         sp = val(s1).lower()
         toks = lex(s)
-        want = [NAME] + [literals[t[1][1:]] for t in toks if t[0] == "ref"] + [t[1].lstrip("-") for t in toks if t[0] == "num"]
+        want = ([NAME] if toks[0][1] == NAME else []) + [literals[t[1][1:]] for t in toks if t[0] == "ref"] + [t[1].lstrip("-") for t in toks if t[0] == "num"]
         missing = [w for w in want if w.lower() not in sp]
         if missing:
             add("legal-not-honoured", f"speech {val(s1)!r} does not mention {missing}")
@@ -362,6 +390,10 @@ def main(tier):
     allstr = sorted(set(s for st in sets for s in st), key=lambda x: (len(x), x))
     run.count("distinct_strings", len(allstr))
     jobs = [("mrow4", list(CHAINS) + list(PROPS_ON_ARGS)), ("mrow", list(PROPS_ON_ARGS)), ("msup", list(PROPS_ON_ARGS))]
+    kh = known_head_strings()
+    run.count("known_head_strings", len(kh))
+    for i in range(0, len(kh), 62):
+        jobs.append(("mrow4", kh[i:i + 62]))
     for host in HOSTS:
         for i in range(0, len(allstr), 250):
             jobs.append((host, allstr[i:i + 250]))
